@@ -11,6 +11,7 @@ import (
 	"time"
 
 	"github.com/compose-spec/compose-go/v2/loader"
+	"github.com/compose-spec/compose-go/v2/template"
 	"github.com/compose-spec/compose-go/v2/types"
 	"github.com/google/go-cmp/cmp"
 	"github.com/google/go-cmp/cmp/cmpopts"
@@ -40,6 +41,18 @@ type loadOpts struct {
 	NameNotImperative      bool     `json:"name_not_imperative,omitempty"` // the name is only the caller's fallback
 	KnownExt               string   `json:"known_extension,omitempty"`     // "" | value | pointer: prototype registered for `x-known`
 	NilInterpolate         bool     `json:"nil_interpolate,omitempty"`     // Options.Interpolate = nil (the loader guards for it)
+	// the caller supplies its own Options.Interpolate.Substitute: the default one, except that the variable
+	// CUSTOM_SUBSTITUTE_MARK is always set (to "custom-substitute")
+	CustomSubstitute bool `json:"custom_substitute,omitempty"`
+}
+
+func customSubstitute(tmpl string, mapping template.Mapping) (string, error) {
+	return template.Substitute(tmpl, func(k string) (string, bool) {
+		if k == "CUSTOM_SUBSTITUTE_MARK" {
+			return "custom-substitute", true
+		}
+		return mapping(k)
+	})
 }
 
 // knownExt is the Go type a caller registers for the `x-known` extension; the prototypes are shared by all loads.
@@ -85,6 +98,9 @@ func (o loadOpts) apply(lo *loader.Options) {
 	}
 	if o.NilInterpolate {
 		lo.Interpolate = nil
+	}
+	if o.CustomSubstitute && lo.Interpolate != nil {
+		lo.Interpolate.Substitute = customSubstitute
 	}
 	lo.Profiles = o.Profiles
 	name := o.ProjectName
